@@ -40,6 +40,18 @@ CHECKS = {
         "modalities of categorical features.",
         "DESIGN.md §4 C03",
     ),
+    "C08": (
+        "PBT/fuzzing with hostile generators and exception bucketing: degenerate-shape samples through every class, "
+        "post-fit coherence invariants and structural partition checks",
+        "Hostile but well-formed samples (constant, all-missing, ids, equally rare discrete values, one-class "
+        "features, spikes, 2-12 rows) x 10 classes x parameters; any non-AssertionError from fit/transform is a "
+        "violation bucketed by (type, innermost package frame), so several root causes are enumerated per campaign; "
+        "after success the per-feature attributes, summary, history and values_orders partitions are checked. "
+        "Exploration over bounded sizes.",
+        "Trusted: reference mapping; the weak reading of 'history refers to kept features' (a dropped feature's "
+        "history must end with removed=True) is deliberate, see DESIGN.md.",
+        "DESIGN.md §4 C08",
+    ),
     "C04": (
         "PBT with a reference oracle: table-first generated samples, transform(X_train) compared with the "
         "mapping recomputed from values_orders (list+content) only; metamorphic string-form probe",
